@@ -260,6 +260,11 @@ def _restoring_guard(ctx, fn, call):
             calls = [x for x in g.walk() if x['k'] == 'CXXMemberCallExpr' and x.get('callee') == method]
             if not calls:
                 continue
+            # the destructor re-installs on EVERY path (not only when no exception is in flight)
+            cids = set(x['id'] for x in calls)
+            if paths.search(g, [], stop=lambda n: n['id'] in cids, target=lambda n: n['k'] == 'ReturnStmt', include_entry=True,
+                            exit_is_target=lambda b: True) is not None:
+                continue
             # the guard's initialiser binds the solver's operator and the stored shift fields (not locals)
             init = fn.nodes[dd['init']]
             leaves = fn.mentions(init)
